@@ -153,7 +153,9 @@ class Ctx(object):
                 mon = monitors.get(u.name)
                 if mon is not None:
                     try:
-                        res = self.monitor(mon[0], "search", (mon[3] if len(mon) > 3 else 60000), self.seed, "null")
+                        hint0 = mon[2]("undecided:" + u.name) if len(mon) > 2 else None
+                        res = self.monitor(mon[0], "search", (mon[3] if len(mon) > 3 else 60000), self.seed,
+                                           json.dumps(hint0, sort_keys=True) if hint0 else "null")
                         self.bounded.append({"unit": u.name, "monitor": mon[0], "reason": "unit undecided: " + r.msg[:200],
                                              "inputs_tried": res.get("tried"), "violation": res.get("violation")})
                         if res.get("violation"):
